@@ -14,7 +14,7 @@ PROP = "C18"
 LEVEL = "exploration"
 RULE = ("reduced cells (conforming-cell lists and the cell alphabet, kept iff their own basis vectors are the successive minima of the lattice) x "
         "every unimodular integer matrix with entries in {-1,0,1} under which the reduced basis keeps coefficients |u|,|v|,|w| <= 2 in the new "
-        "basis (at most 4 non-zero entries in quick, at most 6 in thorough) plus the 20 shears with coefficients +-2 x both modules. Oracle: same volume; the output "
+        "basis (quick: all with at most 4 non-zero entries and every 17th of those with 5-7; thorough: all with at most 7) plus the 20 shears with coefficients +-2 x both modules. Oracle: same volume; the output "
         "lengths are the three successive minima of the lattice (computed in the harness over [-4,4]^3); an integer matrix T with det +-1 "
         "and T'G_in T = G_out exists (search over integer vectors of matching length). distinct_nontrivial = distinct (module, reduced cell, T) "
         "with T != identity.")
@@ -27,17 +27,23 @@ KF = "KF-reduce-cell-transposed"
 
 def unimodular(tier):
     out = []
+    dense = []
     for e in itertools.product((0, 1, -1), repeat=9):
         M = np.array(e, dtype=int).reshape(3, 3)
         d = int(round(np.linalg.det(M)))
         if abs(d) != 1:
             continue
-        if sum(1 for x in e if x) > (4 if tier == "quick" else 6):
+        nz = sum(1 for x in e if x)
+        if nz > 7:
             continue
         Mi = np.rint(np.linalg.inv(M)).astype(int)
         if np.max(np.abs(Mi)) > 2:
             continue
-        out.append(M)
+        if tier == "quick" and nz > 4:
+            dense.append(M)  # quick: of the denser matrices (5-7 non-zero entries: settings sheared along two axes at once) every 17th
+        else:
+            out.append(M)
+    out += dense[::17]
     # shears with coefficient +-2 (the reduced vectors then need the coefficient 2 at the edge of the search range)
     for i, j in itertools.permutations(range(3), 2):
         for k in (2, -2):
@@ -61,6 +67,8 @@ def base_cells(tier):
         cs += alph.conforming_cells(sysname, cc, "thorough")
     cs += [[3.0, 10.0, 11.0, 90.0, 90.0, 90.0], [2.5, 9.0, 20.0, 80.0, 85.0, 95.0], [5.0, 6.0, 7.0, 90.0, 90.0, 90.0], [3.0, 4.0, 5.0, 80.0, 95.0, 100.0], [9.07599708738, 6.05007626616, 43.921476668199631, 90.0, 90.0, 90.0], [4.0, 9.0, 30.0, 75.0, 85.0, 95.0]]
     # cells a few 1e-6 degrees inside a reduction boundary: two candidates for one slot differ by ~1e-7 A (not a tie, not far apart either)
+    # strongly anisotropic orthogonal lattices (edge ratios 3-4): sheared settings of these put many nearly coplanar candidate triples in play
+    cs += [[3.1, 9.2, 11.3, 90.0, 90.0, 90.0], [2.9, 3.3, 12.7, 90.0, 90.0, 90.0]]
     cs += [[5.0, 5.0, 7.0, 90.0, 90.0, 119.999996], [5.0, 5.0, 7.0, 90.0, 90.0, 60.000004], [6.0, 6.0, 6.0, 90.0, 119.999997, 90.0],
            [4.0, 5.0, 7.3, 90.0, 90.0, math.degrees(math.acos(0.4)) + 4e-6]]
     if tier == "thorough":
